@@ -2,7 +2,9 @@
 """Print the brief for a defect-hunting sub-agent: find an input / history for which the PRISTINE library violates the property."""
 import json, sys
 pid = sys.argv[1]
-wt = "/tmp/wtH-%s" % pid
+focus = sys.argv[2] if len(sys.argv) > 2 else ""
+tag = sys.argv[3] if len(sys.argv) > 3 else pid
+wt = "/tmp/wtH-%s" % tag
 p = [json.loads(l) for l in open("/verif/properties.jsonl") if json.loads(l)["id"] == pid][0]
 print(f"""You are testing the Rust library jplatte/eyeball (crates `eyeball`, `eyeball-im`, `eyeball-im-util`) against a stated property. Your job: find a concrete input, history or schedule for which the library AS IT IS (no modification) violates the property - a genuine defect - or report, after real effort, that you found none.
 
@@ -19,6 +21,11 @@ Already known and NOT interesting (do not report these again; keep your harness 
 * With the `async-lock` feature every subscriber holds two references to the state, so `subscriber_count()` / `strong_count()` count two per subscriber.
 * imbl 5.0.0's `Vector::retain` / `FocusMut::swap` are broken for vectors consumed from the front; the library no longer calls them.
 * Head / Tail / Skip poll their limit / count stream again after it has ended (a non-fused finite limit stream such as `unfold` panics).
+* With `async-lock`, a subscriber that was polled while a writer held / was queued on the lock and is then neither polled again nor dropped keeps a queued (later: granted) read permit, so later writers wait (also after a cancelled `next()`).
+* A panic inside an update closure poisons the std lock; every later call panics and dropping the last handle panics in Drop (abort during unwinding).
+* `SharedObservable::subscriber_count()` can overflow when handles are cloned / dropped concurrently with the call.
+* The poll leaf pushes the waker on every Pending poll without de-duplication.
+{('FOCUS of this hunt (other people covered the rest; spend your effort here): ' + focus) if focus else ''}
 
 How to work: build a differential / model-based harness as an integration test file in the relevant crate's `tests/` directory (its own test target): drive the real API with many generated histories (all diff kinds incl. transactions, Truncate, Reset through lag with small capacities, empty vectors, limits / counts of 0, equal to and beyond the length, ties under the comparison, large vectors above imbl's 64-element chunk size built by pushes AND by pops from the front, both stream flavours (plain and `.batched()`), chains of adapters, hand-rolled executors with counting wakers where wake-ups matter, threads where schedules matter) and compare against an obviously correct model (a plain Vec, a sequential specification). Shrink any failure to a small deterministic reproduction. For the `eyeball` crate (observables, subscribers, locks, unsafe code) schedules and memory matter: `cargo +nightly miri test --offline` works here (data races, leaks, UB), the crates `loom`, `shuttle` and `proptest` are in the offline cargo cache (add them as dev-dependencies of a scratch crate inside the worktree), and both lock flavours (default and `--features async-lock`) as well as `SharedObservable`, weak handles, `subscribe_reset`, `Subscriber::clone`, `next_ref` guards held across calls, and drops in unusual orders deserve attention. Also read the code around the anchors looking for boundary cases the existing tests do not touch, and try them.
 
